@@ -81,7 +81,19 @@ class RngLog:
 
         def w(*a, **k):
             r = fn(*a, **k)
-            log.append((kind, name, _summ(a), _val(r)))
+            v = _val(r)
+            # selections from a sequence of objects (random.sample(individuals, 3), random.choice(worst_l)): the indices
+            if kind == "random" and name in ("sample", "choice") and a and isinstance(a[0], (list, tuple)) \
+                    and a[0] and not isinstance(a[0][0], (int, float, np.integer, np.floating)):
+                seq = list(a[0])
+                picked = r if name == "sample" else [r]
+                try:
+                    v = [next(i for i, x in enumerate(seq) if x is y) for y in picked]
+                    if name == "choice":
+                        v = v[0]
+                except StopIteration:
+                    pass
+            log.append((kind, name, _summ(a), v))
             return r
         w.__wrapped_by_verif__ = True
         w.__name__ = getattr(fn, "__name__", name)
@@ -140,6 +152,35 @@ class RngLog:
                     return r
                 return w
             setattr(cls, "_p_accept_default", mk(orig))
+
+    def install_pop_oracles(self):
+        """record the inputs of the float arithmetic in Particle.move_linear / Spiral.move_spiral at entry, as log
+        entries of kind 'capture' (they are not draws: core_units turns them into the model's oracle vectors)"""
+        from gradient_free_optimizers.optimizers.pop_opt._particle import Particle
+        from gradient_free_optimizers.optimizers.pop_opt._spiral import Spiral
+
+        def arr(x):
+            return None if x is None else [float(v) for v in np.asarray(x, dtype=float).ravel()]
+
+        orig_ml = Particle.__dict__["move_linear"]
+        self.saved.append((Particle, "move_linear", orig_ml))
+
+        def ml(this, *a, **k):
+            self.log.append(("capture", "move_linear", (), dict(
+                velo=arr(this.velo), pos_best=arr(this.pos_best), pos_current=arr(this.pos_current),
+                global_pos_best=arr(this.global_pos_best), inertia=float(this.inertia), cw=float(this.cognitive_weight),
+                sw=float(this.social_weight), rrp=float(this.rand_rest_p))))
+            return orig_ml(this, *a, **k)
+        Particle.move_linear = ml
+        orig_ms = Spiral.__dict__["move_spiral"]
+        self.saved.append((Spiral, "move_spiral", orig_ms))
+
+        def ms(this, center_pos, *a, **k):
+            self.log.append(("capture", "move_spiral", (), dict(
+                center=arr(center_pos), pos_current=arr(this.pos_current), decay_factor=float(this.decay_factor),
+                decay_rate=float(this.decay_rate), max_positions=arr(this.conv.max_positions), rrp=float(this.rand_rest_p))))
+            return orig_ms(this, center_pos, *a, **k)
+        Spiral.move_spiral = ms
 
     def uninstall(self):
         for owner, f, orig in reversed(self.saved):
@@ -232,6 +273,8 @@ def run_steps(spec, rnglog=False, per_step_s=20, keep_valid=False):
         if rl:
             rl.install()
             rl.install_oracles()
+            if spec.get("pop_oracles"):
+                rl.install_pop_oracles()
         signal.alarm(per_step_s)
         try:
             opt = build_opt(spec["name"], space, spec.get("init"), conlist, spec.get("seed", 0), spec.get("cfg"))
